@@ -342,6 +342,102 @@ def chunk_definitions(p, n):
                     f'easting on the central meridian = false easting {fe_a}', call)
 
 
+def chunk_coord_histories(p, n):
+    """the object interface on objects that have a history: a CoordGeo that was already converted, a rounded copy of it, a CoordGeo that
+    came out of CoordTM.geo() (possibly held in a neighbouring zone, possibly re-projected): CoordGeo.tm() is geo2grid with automatic
+    zone of the object's CURRENT latitude and longitude on the ellipsoid and projection of THIS call"""
+    import geodepy.coord as CO
+    rng = p.rng
+
+    def as_tuple(t):
+        return ('North' if t.hemi_north else 'South', t.zone, t.east, t.north)
+
+    def dec_of(v):
+        return float(v.dec()) if hasattr(v, 'dec') else float(v)
+    for _ in range(n):
+        lat, lon, zone, ell, prj = gen_case(rng)
+        if zone and not in_own_zone(prj, zone, lon):
+            continue
+        prj2, ell2 = (any_projection(rng), any_ellipsoid(rng))
+        if prj2 is K.isg or prj is K.isg:
+            prj2 = prj          # ISG has automatic zones only near New South Wales
+        inp = {'lat': lat, 'lon': lon, 'ell': enc_ell(ell), 'prj': enc_prj(prj), 'ell2': enc_ell(ell2), 'prj2': enc_prj(prj2)}
+        # (a) convert, round, convert the rounded copy; then both again on another definition
+        k = rng.choice([0, 1, 2, 3, 5, 8])
+        call = f'c = CoordGeo({lat!r}, {lon!r}); c.tm(...); r = round(c, {k}); r.tm(...); r.tm(other); c.tm(other)'
+        p.case('coord_histories', dict(inp, k=k))
+
+        def hist_a():
+            c = CO.CoordGeo(lat, lon)
+            t1 = as_tuple(c.tm(ell, prj))
+            r = round(c, k)
+            t2 = as_tuple(r.tm(ell, prj))
+            t3 = as_tuple(r.tm(ell2, prj2))
+            t4 = as_tuple(c.tm(ell2, prj2))
+            return t1, t2, t3, t4, dec_of(r.lat), dec_of(r.lon)
+        try:
+            exp1 = tuple(C.geo2grid(lat, lon, 0, ell, prj)[:4])
+        except ValueError:
+            continue
+        try:
+            ok, got = True, hist_a()
+        except ValueError:      # a rounded or re-projected position outside the band / the accepted grid range: not this property's
+            ok, got = False, None
+            p.stats.add('coord_histories:value-error-skipped')
+        except Exception as ex:  # noqa
+            ok, got = False, None
+            p.violation('coordgeo-tm:raises', 'coord_histories', dict(inp, k=k), f'{type(ex).__name__}: {ex}', 'a value', call)
+        if ok:
+            t1, t2, t3, t4, rlat, rlon = got
+            def g2g(la, lo, e_, p_):
+                try:
+                    return tuple(C.geo2grid(la, lo, 0, e_, p_)[:4])
+                except ValueError:
+                    return 'ValueError'
+            exp = (exp1, g2g(rlat, rlon, ell, prj), g2g(rlat, rlon, ell2, prj2), g2g(lat, lon, ell2, prj2))
+            for name, a, b in zip(('first', 'rounded copy', 'rounded copy, other definition', 'original, other definition'),
+                                  (t1, t2, t3, t4), exp):
+                if b != 'ValueError':
+                    p.check(a == b, 'coordgeo-tm:differs-from-geo2grid', 'coord_histories', dict(inp, k=k, step=name), list(a), list(b), call)
+        # (b) a CoordGeo that came out of CoordTM.geo(), the TM coordinate held in its own or a neighbouring zone
+        if prj is K.isg:
+            continue
+        try:
+            own = C.geo2grid(lat, lon, 0, ell, prj)
+            zn = own[1] + rng.choice([-1, 0, 1])
+            if not 1 <= zn <= 60:
+                zn = own[1]
+            held = C.geo2grid(lat, lon, zn, ell, prj)
+        except ValueError:
+            continue
+        if not (-2830000 <= held[2] <= 3830000):
+            continue
+        callb = (f'g = CoordTM({held[1]}, {held[2]!r}, {held[3]!r}, hemi_north={held[0] == "North"}, projection=...).geo(ell); '
+                 f'g.tm(ell, prj); g.tm(ell2, prj2)')
+        p.case('coord_histories_from_tm', dict(inp, held_zone=zn, own_zone=own[1]))
+
+        def hist_b():
+            g = CO.CoordTM(held[1], held[2], held[3], hemi_north=(held[0] == 'North'), projection=prj).geo(ell)
+            return as_tuple(g.tm(ell, prj)), as_tuple(g.tm(ell2, prj2)), dec_of(g.lat), dec_of(g.lon)
+        try:
+            ok, got = True, hist_b()
+        except ValueError:
+            ok, got = False, None
+            p.stats.add('coord_histories_from_tm:value-error-skipped')
+        except Exception as ex:  # noqa
+            ok, got = False, None
+            p.violation('coordgeo-tm:raises', 'coord_histories_from_tm', dict(inp, held_zone=zn), f'{type(ex).__name__}: {ex}', 'a value', callb)
+        if ok:
+            ta, tb, glat, glon = got
+            for name, a, (e_, p_) in (('same definition', ta, (ell, prj)), ('other definition', tb, (ell2, prj2))):
+                try:
+                    b = tuple(C.geo2grid(glat, glon, 0, e_, p_)[:4])
+                except ValueError:
+                    continue
+                p.check(a == b, 'coordgeo-tm:differs-from-geo2grid', 'coord_histories_from_tm', dict(inp, held_zone=zn, step=name),
+                        list(a), list(b), callb)
+
+
 def last_double_below_180(p):
     """clause (b) at the largest longitude of the domain [-180, 180): still one of the zones 1..60"""
     lon = math.nextafter(180.0, 0.0)
@@ -366,6 +462,7 @@ def run(p):
         (chunk_angles, 'angles', 16 if t else 1, p.n(200, 2500)),
         (chunk_coord_objects, 'coord-objects', 16 if t else 1, p.n(150, 2000)),
         (chunk_definitions, 'definitions', 16 if t else 1, p.n(600, 6000)),
+        (chunk_coord_histories, 'coord-histories', 16 if t else 1, p.n(200, 2500)),
     ])
 
 
